@@ -70,7 +70,7 @@ def frame_desc(draw) -> Dict[str, Any]:
         rows.append(row)
     # frames of several ranks concatenated (what RankFilter is for): every rank numbers its events itself, so index labels
     # repeat across ranks
-    dup = has_rank and n >= 2 and draw(st.sampled_from([True, False, False, False]))
+    dup = has_rank and n >= 2 and draw(st.sampled_from([True, True, False, False]))
     if dup:
         per_rank: Dict[int, int] = {}
         for row in rows:
